@@ -110,6 +110,22 @@ pub fn record(seed: u64, nseeds: usize, out: &str, maxlen: i64) {
             None => t.emit(json!({"op": "bootstrap_counts", "n": n2, "b": b2, "out": "panic"})),
         }
     }
+    // per resample index and per slot: position frequencies over many separate calls with a small number of resamples
+    for (n, b) in [(2usize, 1usize), (3, 1), (5, 2), (8, 3), (13, 1)] {
+        let d: Vec<f64> = (0..n).map(|i| i as f64 + 0.5).collect();
+        let calls = 4000usize;
+        let mut counts = vec![vec![0i64; n]; b * n];
+        let mut bad = 0i64;
+        for _ in 0..calls {
+            match guard(|| bootstrap(&d, b)) {
+                Some(rows) if rows.len() == b && rows.iter().all(|r| r.len() == n) => {
+                    for (r, row) in rows.iter().enumerate() { for (sl, v) in row.iter().enumerate() { let i = idx_of(*v, n); if i < 0 { bad += 1 } else { counts[r * n + sl][i as usize] += 1 } } }
+                }
+                _ => bad += 1,
+            }
+        }
+        t.emit(json!({"op": "bootstrap_slots", "n": n, "b": b, "calls": calls, "out": "ok", "bad": bad, "counts": counts}));
+    }
     // pooled over all seeds: one bootstrap(data, 200) per seed and length
     for (pi, n) in pool_ns.iter().enumerate() {
         let (counts, foreign, nrows, lens) = &pooled[pi];
